@@ -32,7 +32,10 @@ META = {
 }
 
 KINDS = ["plain", "include", "evalrst_include_opt", "html_img", "inv_wild", "subst", "subst_circ", "frontmatter_ext", "anchors", "footnotes",
-         "inv_stable", "inv_latest", "scheme_cls", "scheme_plain"]
+         "inv_stable", "inv_latest", "scheme_cls", "scheme_plain", "unknown_lexer", "footnote_num", "include_chain", "include_prev"]
+# kinds also rendered through ONE parser object (create_md_parser + DocutilsRenderer) that is reused for the whole history
+API_KINDS = ["plain", "include", "html_img", "subst", "subst_circ", "frontmatter_ext", "anchors", "footnotes", "scheme_cls", "scheme_plain",
+             "unknown_lexer", "footnote_num", "include_chain", "include_prev"]
 SPHINX_KINDS = ["figure_md", "html_img", "anchors", "xlink", "include", "frontmatter_ext", "figure_md_fail", "plain"]
 
 
@@ -52,6 +55,10 @@ def kind_text(k, name="doc"):
         "frontmatter_ext": '---\nmyst:\n  enable_extensions: [html_image, deflist]\n  heading_anchors: 1\n---\n\n<img src="a.png" alt="y">\n\nterm\n: def\n\n# H\n',
         "anchors": "# Anchor title\n\n## Sub\n\n## Sub\n\n[](#sub-1)\n",
         "footnotes": "x [^a] [^b]\n\n[^b]: two\n\n[^a]: one\n",
+        "footnote_num": "x [^1] y [^n]\n\n[^1]: one\n\n[^n]: named\n",
+        "unknown_lexer": "```nosuchlanguage\ncode\n```\n\n```nosuchlanguage\nmore\n```\n",     # one warning per block, in every document
+        "include_prev": "```{include} docp.md\n```\n",            # docp.md: the path under which the reused parser object renders 'include' documents
+        "include_chain": "```{include} chain.md\n```\n",          # chain.md includes inc.md, which other documents include directly
         # (with front matter: the document then has its own, file-level configuration object)
         "figure_md": "---\nmyst:\n  footnote_transition: false\n---\n\n```{figure-md} fig-" + name + "\n![alt](a.png)\n\ncaption text\n```\n",
         "figure_md_plain": "```{figure-md} figp-" + name + "\n![alt](a.png)\n\ncaption text\n```\n",
@@ -80,6 +87,8 @@ def _setup_dir(d: Path):
     d.mkdir(parents=True, exist_ok=True)
     (d / "inc.md").write_text("## Included\n\ninc text\n")
     (d / "r.rst").write_text("rst text\n")
+    (d / "docp.md").write_text("text of docp\n")
+    (d / "chain.md").write_text("chain\n\n```{include} inc.md\n```\n")
 
 
 def parse_one(d: Path, k, shared=None):
@@ -108,12 +117,44 @@ def parse_one(d: Path, k, shared=None):
     return {"sig": sig, "abs": ab}
 
 
+def api_parser(d: Path):
+    from myst_parser.config.main import MdParserConfig
+    from myst_parser.mdit_to_docutils.base import DocutilsRenderer
+    from myst_parser.parsers.mdit import create_md_parser
+    ov = docutils_overrides(d)
+    cfg = MdParserConfig(**{k[5:]: ({kk: tuple(vv) for kk, vv in v.items()} if k == "myst_inventories" else v) for k, v in ov.items()})
+    return create_md_parser(cfg, DocutilsRenderer)
+
+
+def parse_api(md, d: Path, k, name="doc.md"):
+    """render through the given (possibly already used) parser object into a new document"""
+    import io
+    from myst_parser.mdit_to_docutils.base import make_document
+    doc = make_document(source_path=str(d / name))
+    ws = io.StringIO()
+    doc.reporter.stream = ws
+    doc.reporter.halt_level = 5
+    doc.reporter.report_level = 2
+    doc.settings.halt_level = 5
+    md.options["document"] = doc
+    try:
+        md.render(kind_text(k))
+    except Exception as e:  # noqa: BLE001
+        return {"sig": f"raised {type(e).__name__}: {e}"}
+    return {"sig": doc.pformat() + "\n" + re.sub(r"/[^\s\"']*?/(?=[\w.-]+\.md)", "", ws.getvalue())}
+
+
 def run_history(job):
     """executed in its own fresh process: parse the kinds of the history in order"""
     wd, hist = job
     d = Path(wd)
     shared = docutils_overrides(d)
-    return [parse_one(d, k, shared) for k in hist]
+    out = [parse_one(d, k, shared) for k in hist]
+    # the same history through one reused parser object (the documents have different paths)
+    md = api_parser(d)
+    for n, (k, o) in enumerate(zip(hist, out)):
+        o["api"] = parse_api(md, d, k, "docp.md" if k == "include" else f"doc{n % 2}.md") if k in API_KINDS else None
+    return out
 
 
 # ------------------------------------------------------------------ Sphinx builds
@@ -164,6 +205,10 @@ def build(job):
             out["docs"][n] = {"sig": sig, "abs": ab}
     shutil.rmtree(d, ignore_errors=True)
     return out
+
+
+def _api_sig(sig):
+    return re.sub(r"doc[01p]\.md", "doc.md", sig)
 
 
 def run(ctx):
@@ -225,6 +270,11 @@ def run(ctx):
                 diff = "\n".join(list(difflib.unified_diff(fresh[k]["sig"].splitlines(), got["sig"].splitlines(), "fresh process", f"after {h[:n]}", lineterm="", n=0))[:8])
                 ctx.violation(f"history {h}: the output of parse {n + 1} ({k}) depends on what was parsed before:\n{diff}", case)
                 break
+            if got.get("api") and _api_sig(got["api"]["sig"]) != _api_sig(fresh[k]["api"]["sig"]):
+                import difflib
+                diff = "\n".join(list(difflib.unified_diff(fresh[k]["api"]["sig"].splitlines(), got["api"]["sig"].splitlines(), "new parser object", f"parser object used for {h[:n]}", lineterm="", n=0))[:8])
+                ctx.violation(f"history {h} rendered through one reused parser object: the output of render {n + 1} ({k}) depends on what was rendered before:\n{diff}", case)
+                break
     ctx.leg("R-history", histories=len(hists))
     # ---- V: random longer histories -----------------------------------------------------------
     vh = [[rnd.choice(KINDS) for _ in range(rnd.randint(4, 9))] for _ in range(40 if quick else 600)]
@@ -235,7 +285,8 @@ def run(ctx):
         if isinstance(o, dict):
             ctx.violation(f"history {h}: {o.get('error')}", {"leg": "V-history", "history": h})
             continue
-        traces.append({"id": t, "hist": h, "abs": [g["abs"] for g in o], "same": [g["sig"] == fresh[k]["sig"] for k, g in zip(h, o)]})
+        traces.append({"id": t, "hist": h, "abs": [g["abs"] for g in o], "same": [g["sig"] == fresh[k]["sig"] and (not g.get("api") or _api_sig(g["api"]["sig"]) == _api_sig(fresh[k]["api"]["sig"]))
+                                for k, g in zip(h, o)]})
     tf = ctx.wd / "s_traces.ndjson"
     tlc.write_ndjson(tf, traces)
     rv = tlc.run("SessionTrace", tlc.cfg(ctx, "s_trace.cfg", {**base, "MaxHist": 0}, spec="TraceSpec", invariants=["Verdict", "NonInterference", "StateUntouched"]),
